@@ -44,3 +44,9 @@ add("C17", "exploration", "written-vs-read sequence comparison through byte-chun
 add("C10", "exploration", "Go race detector (pure-Go math/big build) over concurrent workloads in a child process; porcupine linearizability per key; acknowledged-charge accounting; deep-hash snapshot monitor",
     "Race reports de-duplicated by innermost repository frames; store histories checked with porcupine against counter/high-water/register models; pool rounds over Local, Remote, TCP and HTTP with per-host credit = sum of acknowledged charges; snapshots re-hashed after later writes.",
     "Interleavings are those the scheduler and injected sleeps produced (overlapping same-key pairs are counted). The race detector sees only executed paths.")
+add("C18", "exploration", "recorded node calls of the real Agent compared online with a reconciliation model (recording fake EthNode + scripted pool)",
+    "Generated local peer sets, pool replies, strict/non-strict, targets, node kinds, pool errors and multi-round histories; the sets of un-trusted/disconnected ids, the peer request (shortfall, kind) and the ConnectPeer calls must equal the model; nothing happens after a failed keep-alive.",
+    "Host normalisation in the oracle is the harness's own implementation (loopback/unspecified/localhost = no host; ports ignored).")
+add("C20", "exploration", "goroutine-stack census of the keep-alive loop after every lifecycle step; cadence count; CLI bound probes on the built binary",
+    "Random Start/Stop/Wait/forced-update sequences with pool failures at connect, first and k-th keep-alive; the number of live serveUpdates goroutines is read from a dump of all stacks after every step; concurrent Starts; keep-alives per window; the built binary's --update-interval bounds and SIGINT shutdown.",
+    "Stop on an idle agent is not exercised; cadence upper bound is the logical ticker bound, lower bound deliberately loose.")
